@@ -37,6 +37,7 @@ def scalar_desc():
         st.tuples(st.just("pyfloat"), st.floats(allow_nan=False, allow_infinity=True)),
         st.tuples(st.sampled_from(["pycomplex", "npcomplex"]), st.tuples(flo, flo).map(list)),
         st.tuples(st.just("str"), st.text(alphabet="abcXYZ 0_é", max_size=8)),
+        st.tuples(st.just("str"), st.text(alphabet="abcXYZ 0_é", min_size=9, max_size=32)),
         st.tuples(st.just("none"), st.just(0)),
     ).map(list)
 
@@ -170,7 +171,8 @@ def history(draw):
             arity = draw(st.sampled_from([1, 1, 2, 3, 4]))
             dflt = None
             if draw(st.integers(0, 2)) == 0:
-                dflt = draw(scalar_desc().filter(lambda d: type_class(d) == typ and d[0].startswith(("py", "str"))))
+                # custom defaults as python scalars or numpy scalars of the attribute's own class
+                dflt = draw(scalar_desc().filter(lambda d: type_class(d) == typ and d[0] != "npcomplex"))
             name = f"a{nattr}"; nattr += 1
             attrs.append((name, typ, arity))
             ops.append(["create", name, typ, arity, dflt])
@@ -223,6 +225,9 @@ def history(draw):
                                                                and len(set(type_class(c) for c in vd[1])) == 1)) if arity > 1 else None])
             elif op == "clear_attr":
                 ops.append(["clear_attr", name])
+                if n > 0 and draw(st.booleans()):
+                    # a write right after the reset (before the container grows again)
+                    ops.append(["set", name, draw(st.integers(0, n - 1)), draw(value_desc(typ, arity).filter(lambda vd: model_accepts(vd, typ, arity)))])
             elif op == "as_array":
                 ops.append(["as_array", name])
             elif op == "delete":
